@@ -79,6 +79,17 @@ NeverRespawnAfterDrop == \A g \in Gens : ~(rpc[g] = "respawn" /\ cpc = "done" /\
 \*   its (old) recovery thread is about to join it while the second generation has begun to work
 NeverOldPanicAfterRestart ==
   ~(cur = 2 /\ rpc[1] = "join" /\ handles[1][rw[1]] = 1 /\ \E w \in Workers : wpc[2][w] = "recv")
+\*   stop() after a task has panicked: while the dead worker is not yet replaced / after it was replaced
+NeverStopWhileDead    == ~(cpc = "stopped" /\ \E w \in Workers : wpc[cur][w] \in {"unwinding", "dead"})
+NeverStopAfterRespawn == ~(cpc = "stopped" /\ \E w \in Workers : inc[cur][w] >= 1)
+\*   stop() returns while one task is running and another is still queued (it does not wait for them)
+NeverStopBusyQueued   == ~(cpc = "stopped" /\ Running(cur) # {} /\ \E i \in 1 .. Len(q[cur]) : q[cur][i] # SHUTDOWN)
+\*   two panics, the first on a worker that is not the last one: worker 0 replaced, then worker 1 dies;
+\*   worker 1 (of 0..2) replaced, then worker 2 dies
+NeverTwoPanicsLow     == ~(inc[1][0] >= 1 /\ wpc[1][1] = "unwinding")
+NeverTwoPanicsMid     == ~(N >= 3 /\ inc[1][1] >= 1 /\ wpc[1][N - 1] = "unwinding")
+\*   stop; stop: two workers have left through the two Shutdowns
+NeverDoubleStop       == ~(cur >= 1 /\ nsd[1] = 2 /\ Cardinality(Gone(1)) = 2 /\ txAlive[1])
 \*   restart without stop: two generations run tasks at the same time
 NeverTwoGenerationsRun == ~(cur = 2 /\ Running(1) # {} /\ Running(2) # {})
 =============================================================================
